@@ -201,7 +201,7 @@ impl Prop for Iter {
     }
     fn cases(&self, tier: Tier) -> u64 {
         match tier {
-            Tier::Quick => 20_000,
+            Tier::Quick => 80_000,
             Tier::Thorough => 500_000,
         }
     }
